@@ -14,6 +14,8 @@ package bitstr
 //@   ensures fresh(r)
 //@   assigns nothing
 //@   split toBit & 7 0 7
+//@   use rbits_of_mask(8 - int((8 - toBit) & 7))
+//@   use rbits_of_mask(8)
 
 //@ func Len returns (r)
 //@   requires validBS(bs)
@@ -27,6 +29,8 @@ package bitstr
 //@   requires validBS(a) && validBS(b)
 //@   ensures r == lexEnc(a, b)
 //@   assigns nothing
+//@   assertret forall j int :: 0 <= j && j < 8 * fdB(a, b) ==> bbit(a, j) == bbit(b, j)
+//@   assertret forall j int :: 0 <= j && j < 8 * fdB(a[:len(a)-1], b[:len(b)-1]) ==> bbit(a, j) == bbit(b, j)
 //@   use fdEnc_unique(a, b, fdFromByte(a, b, fdB(a, b), len(a) - 1))
 //@   use byte_lt_bit(a[fdB(a, b)], b[fdB(a, b)])
 //@   use fdEnc_unique(a, b, fdFromByte(a, b, fdB(a[:len(a)-1], b[:len(b)-1]), min2(len(a) - 1, len(b) - 1)))
